@@ -21,6 +21,7 @@ Section Fields.
   Hypothesis H_cond_keep : forall m x i r, A m x (set_cond x (activated x) i r).
   Hypothesis H_activate : forall m x,
     (forced x = true \/ (memn m (e_cond_err e) = false /\ memn m (e_cond_true e) = true)) ->
+    cancelled x = false ->                                     (* a cancelled node is never activated *)
     A m x (set_cond x true (interrupt_registered x) (run_count x)).
   Hypothesis H_enter : forall m x,
     (started x = true \/ (negb (completed x) && n_thr (nd p m) && negb (forced x) && memn m (e_thr_wait e)) = false) ->
@@ -86,10 +87,11 @@ Section Fields.
 
   Lemma ok_try_activate s n s' : try_activate e s n = Some s' -> okS s s'.
   Proof.
-    unfold try_activate. destruct (forced (st s n)) eqn:Ef.
-    - intros H. inversion H; subst. apply ok_set_ns. apply H_activate. now left.
+    unfold try_activate. destruct (cancelled (st s n)) eqn:NC; [intros H; inversion H; subst; apply ok_refl|].
+    destruct (forced (st s n)) eqn:Ef.
+    - intros H. inversion H; subst. apply ok_set_ns. apply H_activate; [now left|exact NC].
     - destruct (memn n (e_cond_err e)) eqn:Ee; [discriminate|]. destruct (memn n (e_cond_true e)) eqn:Et.
-      + intros H. inversion H; subst. apply ok_set_ns. apply H_activate. right. now split.
+      + intros H. inversion H; subst. apply ok_set_ns. apply H_activate; [right; now split|exact NC].
       + intros H. inversion H; subst. apply ok_refl.
   Qed.
 
@@ -126,12 +128,13 @@ Section Fields.
       + cbn [out_state]. eapply ok_trans; [|apply ok_mark_completed]. eapply ok_trans; [|apply ok_complete].
         eapply ok_trans; [apply ok_end_blocks|apply ok_with_tag].
       + destruct (negb (interrupt_registered (st s n))); [cbn [out_state]; ok|]. destruct (negb b); [apply ok_refl|].
-        destruct (cancelled (st s n)); [apply ok_refl|]. unfold watch_await. destruct (activated (st s n)); [apply ok_refl|].
-        destruct (cancelled (st s n)); [apply ok_refl|]. destruct (try_activate e s n) as [s'|] eqn:T; [|apply ok_refl].
+        destruct (cancelled (st s n)) eqn:Ecn; [apply ok_refl|]. unfold watch_await. destruct (activated (st s n)); [apply ok_refl|].
+        rewrite Ecn. destruct (try_activate e s n) as [s'|] eqn:T; [|apply ok_refl].
         cbn [out_state]. now apply (ok_try_activate s n).
       + destruct (negb (interrupt_registered (st s n))); [cbn [out_state]; ok|]. destruct (negb b); [apply ok_refl|].
         unfold alarm_await. destruct (activated (st s n)); [apply ok_refl|].
-        destruct (try_activate e s n) as [s'|] eqn:T; [|apply ok_refl]. cbn [out_state]. now apply (ok_try_activate s n).
+        destruct (try_activate e s n) as [s'|] eqn:T; [|apply ok_refl]. cbn [out_state].
+        now apply (ok_try_activate s n).
       + set (s1 := set_ns s n _). assert (N1 : okS s s1) by (unfold s1; ok).
         destruct (dur - 1 <? 0); [exact N1|]. destruct (_ && _); [exact N1|]. cbn [out_state].
         eapply ok_trans; [exact N1|]. ok.
@@ -166,12 +169,15 @@ Section Fields.
       + destruct (wait_start (st s n)); [apply ok_refl|]. destruct (n_kind (nd p n)); try apply ok_refl. destruct (0 <? dur - 1); apply ok_refl.
       + cbn [out_state]. ok.
     - destruct (n_kind (nd p n)); try apply ok_refl. destruct (Nat.ltb _ _); [apply ok_refl|cbn [out_state]; ok].
-    - unfold watch_await. destruct (activated (st s n)); [apply ok_refl|]. destruct (cancelled (st s n)); [apply ok_refl|].
-      destruct (try_activate e s n) as [s'|] eqn:T; [|apply ok_refl]. cbn [out_state]. now apply (ok_try_activate s n).
+    - unfold watch_await. destruct (activated (st s n)); [apply ok_refl|]. destruct (cancelled (st s n)) eqn:Ecn; [apply ok_refl|].
+      destruct (try_activate e s n) as [s'|] eqn:T; [|apply ok_refl]. cbn [out_state].
+      now apply (ok_try_activate s n).
     - apply ok_refl.
     - cbn [out_state]. ok.
-    - unfold alarm_await. destruct (activated (st s n)); [apply ok_refl|].
-      destruct (try_activate e s n) as [s'|] eqn:T; [|apply ok_refl]. cbn [out_state]. now apply (ok_try_activate s n).
+    - destruct (n_kind (nd p n)) eqn:K; try apply ok_refl.
+      unfold alarm_await. destruct (activated (st s n)); [apply ok_refl|].
+      destruct (try_activate e s n) as [s'|] eqn:T; [|apply ok_refl]. cbn [out_state].
+      now apply (ok_try_activate s n).
     - apply ok_refl.
     - apply ok_refl.
     - destruct (n_kind (nd p n)) eqn:K; try apply ok_refl. cbv zeta. cbn [out_state].
